@@ -1,0 +1,55 @@
+//go:build verif
+
+// Machine-checked contracts for this package (guard: build tag `verif`; this file contains comments only).
+// Read by /verif/bin/govc: each `//@ unit` section is one verification unit (the functions matching `filter`,
+// verified against the contracts of the section; callees are used through their contracts only).
+
+package log
+
+//@ unit logger_handler props=C20,C12 filter=`log\.Logger\)\.ServeHTTP$`
+//@ ghost lines int
+//@ ghost nextCalls int
+//@ ghost errWrites int
+//@ extern invoke:(github.com/tmpim/casket/caskethttp/httpserver.Handler).ServeHTTP
+//@   modifies ghost:nextCalls
+//@   may_panic
+//@   ensures nextCalls == old(nextCalls) + 1
+//@ extern (github.com/tmpim/casket/caskethttp/httpserver.Path).Matches
+//@   pure
+//@ extern github.com/tmpim/casket/caskethttp/httpserver.NewResponseRecorder
+//@   ensures result != nil
+//@ extern github.com/tmpim/casket/caskethttp/httpserver.NewReplacer
+//@   ensures result != nil
+//@ extern (github.com/tmpim/casket/caskethttp/httpserver.Logger).ShouldLog
+//@   pure
+//@ extern (github.com/tmpim/casket/caskethttp/httpserver.Logger).Println
+//@   modifies ghost:lines
+//@   ensures lines == old(lines) + 1
+//@ extern (*github.com/tmpim/casket/caskethttp/httpserver.ResponseRecorder).WriteHeader
+//@   modifies ghost:errWrites
+//@   ensures errWrites == old(errWrites) + 1
+
+//@ spec cnt(rule *Rule, p string, k int) int
+//@ axiom (rule *Rule, p string) cnt(rule, p, 0) == 0
+//@ axiom cnt_yes (rule *Rule, p string, k int) (0 <= k && k < len(rule.Entries) && rule.Entries[k].Log.ShouldLog(p)) ==> cnt(rule, p, k+1) == cnt(rule, p, k) + 1
+//@ axiom cnt_no (rule *Rule, p string, k int) (0 <= k && k < len(rule.Entries) && !rule.Entries[k].Log.ShouldLog(p)) ==> cnt(rule, p, k+1) == cnt(rule, p, k)
+
+//@ define hit(k int) bool = httpserver.Path(old(r.URL.Path)).Matches(l.Rules[k].PathScope)
+
+//@ func (Logger).ServeHTTP
+//@   may_panic
+//@   ensures_on_panic [line_on_panic] forall(k, 0, len(l.Rules), (hit(k) && forall(j, 0, k, !hit(j))) ==> lines == old(lines) + cnt(l.Rules[k], old(r.URL.Path), len(l.Rules[k].Entries)))
+//@   requires r != nil && r.URL != nil && l.Next != nil
+//@   requires forall(k, 0, len(l.Rules), l.Rules[k] != nil && forall(j, 0, len(l.Rules[k].Entries), l.Rules[k].Entries[j] != nil && l.Rules[k].Entries[j].Log != nil))
+//@   modifies ghost:lines, ghost:nextCalls, ghost:errWrites, Request.URL
+//@   ensures [next_once] nextCalls == old(nextCalls) + 1
+//@   ensures [in_scope_consumes_status] exists(k, 0, len(l.Rules), hit(k)) ==> result0 < 400
+//@   ensures [one_line_per_log] forall(k, 0, len(l.Rules), (hit(k) && forall(j, 0, k, !hit(j))) ==> lines == old(lines) + cnt(l.Rules[k], old(r.URL.Path), len(l.Rules[k].Entries)))
+//@   ensures [out_of_scope_silent] forall(k, 0, len(l.Rules), !hit(k)) ==> lines == old(lines)
+//@   at call dynamic#1 assert [error_goes_through_recorder] arg0 == responseRecorder
+//@   loop 1 invariant 0 <= #i && #i <= len(l.Rules) && lines == old(lines) && nextCalls == old(nextCalls) && r.URL == old(r.URL) && r.URL.Path == old(r.URL.Path) && forall(k, 0, #i, !hit(k))
+//@   loop 2 invariant 0 <= #i2 && #i2 <= len(rule.Entries)
+//@   loop 2 invariant lines == old(lines) + cnt(rule, preURL.Path, #i2)
+//@   loop 2 invariant nextCalls == old(nextCalls) + 1 && status < 400
+//@   loop 2 use cnt_yes(rule, preURL.Path, #i2)
+//@   loop 2 use cnt_no(rule, preURL.Path, #i2)
